@@ -19,7 +19,7 @@ const (
 	// fdShardDepth: a history belongs to the shard selected by a hash of its
 	// first fdShardDepth choices (rep.Enumerate shards on the first two only,
 	// which here are config and first answer: 18 very unequal groups).
-	fdShardDepth = 5
+	fdShardDepth = 9
 )
 
 type fdConfig struct {
@@ -113,10 +113,11 @@ func (p *fdPicker) finish() {
 // first three calls, the third answer repeated afterwards), close live socket
 // i}. Lazy choice enumerates exactly the answer sequences that can be told
 // apart: answers the generator never asks for are not multiplied out.
-func fdBody(pk *fdPicker, configs []fdConfig, depth int) (run fdRun) {
+func fdBody(pk *fdPicker, configs []fdConfig) (run fdRun) {
 	c := pk.c
 	ci := pk.pick(len(configs))
 	cfg := configs[ci]
+	depth := fdDepth(cfg.MaxRetries)
 	nw := simnet.New()
 	nw.LogOff = true
 	sr := &scriptRand{}
@@ -255,17 +256,14 @@ func fdBody(pk *fdPicker, configs []fdConfig, depth int) (run fdRun) {
 
 			return run
 		}
+		badN := false
 		for _, n := range sr.Ns {
-			if n != fdN {
-				fail("filldrain:intn-arg!=range-size", fmt.Sprint(sr.Ns))
-
-				return run
-			}
+			badN = badN || n != fdN
 		}
 		// did some answer the generator asked for point at a free port?
 		freeHit := false
 		for _, a := range sr.Ans {
-			if live[a] == nil {
+			if a < fdN && live[a] == nil {
 				freeHit = true
 			}
 		}
@@ -280,6 +278,8 @@ func fdBody(pk *fdPicker, configs []fdConfig, depth int) (run fdRun) {
 				fail("filldrain:socket-leaked-on-failure", fmt.Sprintf("open %v, model %v", open(nw, cfg.Proto), modelOpen()))
 			case freeHit:
 				fail("filldrain:failed-although-answered-port-free", fmt.Sprintf("answers %v live-mask %03b", sr.Ans, mask()))
+			case badN:
+				fail("filldrain:intn-arg!=range-size", fmt.Sprint(sr.Ns))
 			}
 			if run.viol != nil {
 				if res.conn != nil {
@@ -309,6 +309,8 @@ func fdBody(pk *fdPicker, configs []fdConfig, depth int) (run fdRun) {
 			fail("filldrain:advertised-port!=bound", describe(res))
 		case !aip.Equal(relay4):
 			fail("filldrain:advertised-ip!=relay-address", describe(res))
+		case badN:
+			fail("filldrain:intn-arg!=range-size", fmt.Sprint(sr.Ns))
 		}
 		if run.viol != nil {
 			_ = res.conn.Close()
@@ -355,6 +357,23 @@ func (k fdClass) text(configs []fdConfig) string {
 		cfg.Proto, cfg.MaxRetries, k.liveBefore, e, why, k.intnCalls)
 }
 
+// fdDepth is the history length per MaxRetries. The number of histories per
+// transport is (depth 5/6/7): MaxRetries 1: 1074 / 5097 / 24423; 2: 11574 /
+// 117441 / 1218915; 10 (three varied answers): 172626 / 4659945 / 129220827.
+// At ~35 us per history MaxRetries=10 at depth 7 alone would need ~2.5 core
+// hours, so it stays one level below the others.
+func fdDepth(maxRetries int) int {
+	d := 6
+	if rep.Thorough() {
+		d = 7
+	}
+	if maxRetries >= 3 {
+		d--
+	}
+
+	return d
+}
+
 // TestC20FillDrain is part (iii): stateless DFS by prefix replay (every history
 // starts from a fresh network and generator), odometer over the recorded
 // arities as in rep.Enumerate.
@@ -362,11 +381,7 @@ func TestC20FillDrain(t *testing.T) {
 	r := rep.New("C20")
 	defer r.Write()
 	si, sn := rep.Shard()
-	depth := 6
-	if rep.Thorough() {
-		depth = 7
-	}
-	r.Depth = depth
+	r.Depth = fdDepth(1)
 	var configs []fdConfig
 	for _, mr := range []int{1, 2, 10} {
 		for _, proto := range []string{"udp", "tcp"} {
@@ -382,7 +397,7 @@ func TestC20FillDrain(t *testing.T) {
 	var execs int64
 	for {
 		pk := &fdPicker{c: rep.FixedChooser(prefix), shard: si, n: sn}
-		run := fdBody(pk, configs, depth)
+		run := fdBody(pk, configs)
 		taken, arity := pk.c.Taken, pk.c.Arity
 		if run.foreign {
 			if len(taken) > fdShardDepth {
